@@ -14,7 +14,7 @@ def nontrivial(case, info, qk, row):
 def run(ctx):
     count = 200 if ctx.tier == "quick" else 4000
     cases = answers.load_corpus("C04")
-    cases += answers.gen_cases(ctx, count, (1, 6), (1, 7), [False], ties=0.5, rekey=0.3, big=0.1, cost=0.12)
+    cases += answers.gen_cases(ctx, count, (1, 6), (1, 7), [False, False, False, False, True], strong_only=True, ties=0.5, rekey=0.3, big=0.1, cost=0.12)
     # knowledge bases shipped with the repository (examples/random_large: 6-12 atoms, deeply nested formulas), parsed by the real parser
     cases += answers.shipped_cases(ctx, 8 if ctx.tier == "quick" else 120, (6, 10) if ctx.tier == "quick" else (6, 12), [False])
     if ctx.tier == "thorough":
